@@ -10,6 +10,8 @@ symbolic), its (coefficient, source term) pair equals (band[|j-(K-1)|], xhat[t+(
 """
 from __future__ import annotations
 
+import ast
+
 import z3
 
 from pyvc import builtins_model as B
@@ -288,9 +290,28 @@ def build3(ck, T):
             a.closed = k
             return a
 
+        # the locals of the diagonal loop by ROLE (AST): the array rebuilt with `.at[...].set(...)` in every iteration and
+        # the loop variable — renaming them must not break the contract
+        OUT, JV = 'output', 'j'
+        try:
+            fnode = S.ck.P.func(DENSE).node
+            loop = next(n for n in ast.walk(fnode) if isinstance(n, ast.For))
+            if isinstance(loop.target, ast.Name):
+                JV = loop.target.id
+            for st in ast.walk(loop):
+                if isinstance(st, ast.Assign) and isinstance(st.targets[0], ast.Name) and isinstance(st.value, ast.Call) \
+                        and isinstance(st.value.func, ast.Attribute) and st.value.func.attr in ('set', 'add') \
+                        and isinstance(st.value.func.value, ast.Subscript) \
+                        and isinstance(st.value.func.value.value, ast.Attribute) and st.value.func.value.value.attr == 'at' \
+                        and isinstance(st.value.func.value.value.value, ast.Name) \
+                        and st.value.func.value.value.value.id == st.targets[0].id:
+                    OUT = st.targets[0].id
+        except Exception:       # noqa: BLE001
+            pass
+
         def invariant(L):
             """after k diagonals (j = -(K-1) .. -(K-1)+k-1): output[r*n+c] = band[|c-r|] if c-r is one of them, else 0"""
-            out = L.var('output')
+            out = L.var(OUT)
             if getattr(out, 'closed', None) is not None and z3.eq(out.closed, z3.simplify(to_z3(L.k))):
                 return True
             if not isinstance(out, E.Arr):
@@ -299,7 +320,7 @@ def build3(ck, T):
             def hint(r, c, w, qs, member):
                 """which q can hit (r, c) on the diagonal j = c - r walked in this iteration (pure integer arithmetic,
                 an instance of row-major uniqueness): q = r for j >= 0 (start (0, j)), q = c for j < 0 (start (-j, 0))"""
-                j = to_z3(L.var('j')) if L.has('j') else None
+                j = to_z3(L.var(JV)) if L.has(JV) else None
                 if j is None or not z3.eq(z3.simplify(to_z3(w)), R.n):
                     return []
                 rng = z3.And(0 <= to_z3(r), to_z3(r) < R.n, 0 <= to_z3(c), to_z3(c) < R.n, member)
@@ -308,11 +329,11 @@ def build3(ck, T):
                                                z3.And(qs == c, to_z3(r) == to_z3(c) - j))))]
             T.at_set_hint = hint
             try:
-                return z3.And(*[g for _, g in E.arr_eq_goals(out, F(L.k, L.old('output')), rc=(R.n, R.n))])
+                return z3.And(*[g for _, g in E.arr_eq_goals(out, F(L.k, L.old(OUT)), rc=(R.n, R.n))])
             finally:
                 T.at_set_hint = None
 
-        spec = LoopSpec(invariant, lambda L: L.set('output', F(L.k, L.old('output'))))
+        spec = LoopSpec(invariant, lambda L: L.set(OUT, F(L.k, L.old(OUT))))
         S.I.loop_specs[(DENSE, 0)] = spec
         out = S.call(S.func(DENSE), [R.n, R.band])
         if not no_exception(S, out):
